@@ -817,7 +817,11 @@ func (s *IndexedState) FindCachedRules(ctx *Context, event Map) (map[string]*Rul
 		} else {
 			rule, err := RuleFromMap(ctx, r)
 			if err != nil {
-				return nil, err
+				// This stored rule can't be parsed.  That's
+				// this rule's problem; the other rules still
+				// deserve the event.
+				Log(WARN, ctx, "IndexedState.FindCachedRules", "ruleId", id, "error", err)
+				continue
 			}
 			acc[id] = rule
 			s.cachedRules[id] = rule
